@@ -276,7 +276,7 @@ pub fn run_protocol(input: &[u8], sizes: &[usize], script: Vec<Resp>, op: &str, 
 }
 
 /// mechanism B: seeded long grammar inputs x random fault scripts x all four write paths
-pub fn record(seed: u64, runs: u64, target: usize, path: &str) -> Value {
+pub fn record(seed: u64, runs: u64, target: usize, path: &str, max_profile: usize) -> Value {
     use crate::gen::{gen_stream, Flavor};
     let mut w = crate::out_file(path);
     let mut r = crate::rng::Rng::new(seed);
@@ -287,7 +287,7 @@ pub fn record(seed: u64, runs: u64, target: usize, path: &str) -> Value {
         let input = gen_stream(&mut r, target, flavor);
         bytes += input.len() as u64;
         // fault profile: 0 = short writes only, 1 = + Interrupted, 2 = + rare hard errors
-        let profile = r.below(3);
+        let profile = r.below(3).min(max_profile);
         let mut script = Vec::new();
         for _ in 0..(input.len() / 2 + 4) {
             let x = r.below(100);
